@@ -6,22 +6,31 @@
 (***************************************************************************)
 EXTENDS Text
 
-San(p, lg, m) ==
+\* the components of the canonical SAN of legal move m (lg = Legal(p))
+\* castle 0 none / 1 short / 2 long; piece 0 for a pawn; ffile, frank: the disambiguation written (or -1)
+SanParts(p, lg, m) ==
   LET b == p.b  s == m[1]  t == m[2]  k == KindOf(b[s])
       succ == Make(p, m)
       inchk == InCheck(succ)
       suffix == IF inchk THEN (IF Legal(succ) = {} THEN "#" ELSE "+") ELSE ""
-  IN IF IsCastle(p, m) THEN (IF FileOf(s) < FileOf(t) THEN "O-O" ELSE "O-O-O") \o suffix
+  IN IF IsCastle(p, m)
+     THEN [castle |-> IF FileOf(s) < FileOf(t) THEN 1 ELSE 2, piece |-> 0, ffile |-> -1, frank |-> -1, cap |-> FALSE, to |-> t, promo |-> 0, suffix |-> suffix]
      ELSE LET capture == IsCapture(p, m)
               \* other LEGAL moves of the same kind of piece to the same square (promotions count once)
               froms == {x[1] : x \in {x \in lg : x[1] # s /\ x[2] = t /\ KindOf(b[x[1]]) = k}}
-              dis == IF k = PAWN THEN (IF capture THEN FileCh(FileOf(s)) ELSE "")
-                     ELSE IF froms = {} THEN ""
-                     ELSE IF \A f \in froms : FileOf(f) # FileOf(s) THEN FileCh(FileOf(s))
-                     ELSE IF \A f \in froms : RankOf(f) # RankOf(s) THEN RankCh(RankOf(s))
-                     ELSE SqName(s)
-          IN (IF k = PAWN THEN "" ELSE KindUp(k)) \o dis \o (IF capture THEN "x" ELSE "") \o SqName(t)
-             \o (IF m[3] # 0 THEN "=" \o KindUp(m[3]) ELSE "") \o suffix
+              needFile == IF k = PAWN THEN capture
+                          ELSE froms # {} /\ ((\A f \in froms : FileOf(f) # FileOf(s)) \/ ~(\A f \in froms : RankOf(f) # RankOf(s)))
+              needRank == k # PAWN /\ froms # {} /\ ~(\A f \in froms : FileOf(f) # FileOf(s))
+          IN [castle |-> 0, piece |-> IF k = PAWN THEN 0 ELSE k, ffile |-> IF needFile THEN FileOf(s) ELSE -1,
+              frank |-> IF needRank THEN RankOf(s) ELSE -1, cap |-> capture, to |-> t, promo |-> m[3], suffix |-> suffix]
+RenderSan(x) == IF x.castle = 1 THEN "O-O" \o x.suffix ELSE IF x.castle = 2 THEN "O-O-O" \o x.suffix
+                ELSE (IF x.piece = 0 THEN "" ELSE KindUp(x.piece)) \o (IF x.ffile = -1 THEN "" ELSE FileCh(x.ffile))
+                     \o (IF x.frank = -1 THEN "" ELSE RankCh(x.frank)) \o (IF x.cap THEN "x" ELSE "") \o SqName(x.to)
+                     \o (IF x.promo # 0 THEN "=" \o KindUp(x.promo) ELSE "") \o x.suffix
+San(p, lg, m) == RenderSan(SanParts(p, lg, m))
+\* the tokens a reader sees in the canonical SAN
+TokensOfParts(x) == [ok |-> TRUE, castle |-> x.castle, piece |-> x.piece, file |-> x.ffile, rank |-> x.frank,
+                     dest |-> IF x.castle # 0 THEN -1 ELSE x.to, promo |-> x.promo]
 
 \* boards on which UCI castling notation is defined: every right has the king on e, rooks on a/h
 Orthodox(p) == \A c \in 0..1 : (p.cr[2*c+1] = -1 /\ p.cr[2*c+2] = -1) \/
